@@ -140,6 +140,7 @@ pub trait HInput<'a>: Input<'a, Token: HTok, Span: HSpan> + Sized + 'a {
 
     // ----- primitives that need `ValueInput` -----
     fn any<E: HErr<'a, Self>>() -> Res<P<'a, Self, E>>;
+    fn skip<E: HErr<'a, Self>>(n: usize) -> Res<P<'a, Self, E>>;
     fn one_of<E: HErr<'a, Self>>(ts: &[u32]) -> Res<P<'a, Self, E>>;
     fn none_of<E: HErr<'a, Self>>(ts: &[u32]) -> Res<P<'a, Self, E>>;
     fn select<E: HErr<'a, Self>>(p: Pred, f: Fn1) -> Res<P<'a, Self, E>>;
@@ -186,6 +187,9 @@ macro_rules! value_impl {
         fn any<E: HErr<'a, Self>>() -> Res<P<'a, Self, E>> {
             Ok(build::v_any())
         }
+        fn skip<E: HErr<'a, Self>>(n: usize) -> Res<P<'a, Self, E>> {
+            Ok(build::v_skip(n))
+        }
         fn select<E: HErr<'a, Self>>(p: Pred, f: Fn1) -> Res<P<'a, Self, E>> {
             Ok(build::v_select(p, f))
         }
@@ -214,6 +218,9 @@ macro_rules! value_impl {
     (none) => {
         fn any<E: HErr<'a, Self>>() -> Res<P<'a, Self, E>> {
             build::unsupported("Any: input kind is not a ValueInput")
+        }
+        fn skip<E: HErr<'a, Self>>(_n: usize) -> Res<P<'a, Self, E>> {
+            build::unsupported("Skip: input kind is not a ValueInput")
         }
         fn select<E: HErr<'a, Self>>(_p: Pred, _f: Fn1) -> Res<P<'a, Self, E>> {
             build::unsupported("Select: input kind is not a ValueInput")
